@@ -194,7 +194,7 @@ func (re *refExec) execSet(n *Node, objType string, sels []*Sel, path pathT) map
 		ck := CallKey{n.ID, f0.Name}
 		re.ex.Calls[ck.String()]++
 		p := path.with(g.key)
-		if fk := re.faults[ck]; fk != NoFault {
+		if fk := re.faults[ck]; fk != NoFault && fk != FaultNth {
 			out[g.key] = nil
 			re.ex.ErrPaths = append(re.ex.ErrPaths, PathString(p))
 			if fk == FaultGroup {
@@ -206,7 +206,18 @@ func (re *refExec) execSet(n *Node, objType string, sels []*Sel, path pathT) map
 		for _, f := range g.fields {
 			sub = append(sub, f.Sels...)
 		}
-		out[g.key] = re.complete(fd.Type, fieldValue(n, f0.Name, args), sub, p)
+		val := fieldValue(n, f0.Name, args)
+		if re.faults[ck] == FaultNth {
+			// the accessor of one element fails: that element is null with one error, the others are untouched
+			if l, ok := val.([]interface{}); ok && len(l) > 0 {
+				idx := NthFailIndex(len(l))
+				cp := append([]interface{}{}, l...)
+				cp[idx] = nil
+				val = cp
+				re.ex.ErrPaths = append(re.ex.ErrPaths, PathString(p.with(idx)))
+			}
+		}
+		out[g.key] = re.complete(fd.Type, val, sub, p)
 	}
 	return out
 }
